@@ -464,6 +464,51 @@ func ruleSemantic(c *Ctx) {
 					}
 				}
 			}
+			// ... on every path: the list handed to the encoder is never the tokenizer's raw output (through merges
+			// and through the returns of the helpers it comes from) - a helper that skips the filter for a range it
+			// takes for "no range" (the zero Range is the legitimate request for line 0 up to character 0) answers the
+			// whole document (C17-m29)
+			raw := false
+			seenRaw := map[ssa.Value]bool{}
+			var rawEdge func(v ssa.Value, depth int)
+			rawEdge = func(v ssa.Value, depth int) {
+				v = stripConv(v)
+				if v == nil || seenRaw[v] || depth > 8 {
+					return
+				}
+				seenRaw[v] = true
+				switch x := v.(type) {
+				case *ssa.Phi:
+					for _, e := range x.Edges {
+						rawEdge(e, depth+1)
+					}
+				case *ssa.Call:
+					if isTokenizer(x.Common().StaticCallee()) {
+						raw = true
+						return
+					}
+					if cal := x.Common().StaticCallee(); cal != nil && inModule(cal) && cal.Blocks != nil {
+						for _, b := range cal.Blocks {
+							if r, ok := lastInstr(b).(*ssa.Return); ok && len(r.Results) >= 1 {
+								rawEdge(unspillResult(r.Results[0], b), depth+1)
+							}
+						}
+					}
+				case *ssa.Extract:
+					if call, ok := x.Tuple.(*ssa.Call); ok {
+						if cal := call.Common().StaticCallee(); cal != nil && inModule(cal) && cal.Blocks != nil {
+							for _, b := range cal.Blocks {
+								if r, ok := lastInstr(b).(*ssa.Return); ok && x.Index < len(r.Results) {
+									rawEdge(unspillResult(r.Results[x.Index], b), depth+1)
+								}
+							}
+						}
+					}
+				}
+			}
+			rawEdge(enc.Common().Args[0], 0)
+			c.check(!raw, "T12", fname, "range: the filter is applied on every path", enc.Pos(), "no path hands the tokenizer's unfiltered output to the encoder",
+				"on some path the range handler encodes the tokenizer's output as it is - the line filter is skipped there (a requested range that is mistaken for 'no range', e.g. the zero Range 0:0-0:0): the response holds the tokens of every line instead of the full result restricted to the requested lines")
 			c.check(filt, "T12", fname, "range = full result restricted by the line filter", enc.Pos(), "the tokenizer's output passes the range filter before encoding", "range tokens are not obtained by filtering the full token list")
 		}
 		// Data fields of returned SemanticTokens = the encoder result
